@@ -434,6 +434,36 @@ def r19_10(ctx, rep):
     metadata_rows_total(ctx, rep, "R19.10")
 
 
+@SPEC.rule(
+    "R19.11",
+    "every symbolic attribute is classified: in save_model's dependency table the only way for an attribute to keep the default class "
+    "(`not an MX, take it from the pickled dict`) is the failed test isinstance(<attribute>, ca.MX) — to_dict() blanks every MX attribute, "
+    "so an MX that is skipped here (because it is constant, because it is a literal in disguise) comes back from the cache as None",
+)
+def r19_11(ctx, rep):
+    from ..cfg import assume_truth
+    R = "R19.11"
+    fn = api_fn(ctx, "save_model", R)
+    site = API + ":save_model"
+    loops = [lp for lp in walk_local(fn) if isinstance(lp, ast.For) and "CASADI_ATTRIBUTES" in norm(lp.iter)
+             and any(isinstance(st, ast.Assign) and isinstance(st.value, ast.Call) and is_name(st.value.func, "getattr") for st in lp.body)]
+    if not loops:
+        raise MechanismMissing(R, "the attribute loop of the dependency classification was not found in save_model")
+    lp = loops[0]
+    attr = next(st.targets[0].id for st in lp.body if isinstance(st, ast.Assign) and isinstance(st.value, ast.Call) and is_name(st.value.func, "getattr") and isinstance(st.targets[0], ast.Name))
+    cfg = CFG(ast.Module(body=[lp], type_ignores=[]), R)
+    it = [x for x in cfg.nodes if x.kind == "iter" and x.ast is lp][0]
+    stores = {x.id for x in cfg.stmts() if isinstance(x.ast, ast.Assign) and isinstance(x.ast.targets[0], ast.Subscript) and isinstance(x.ast.targets[0].slice, ast.Tuple)}
+    if not stores:
+        raise MechanismMissing(R, "no store into the dependency table found in the attribute loop")
+    not_mx = {x.id for x in cfg.nodes if x.kind == "assume" and assume_truth(x, "isinstance(%s, ca.MX)" % attr) is False}
+    entry = [s_ for s_ in cfg.succ[it.id] if cfg.nodes[s_].kind == "assume" and cfg.nodes[s_].taken]
+    w = cfg.path(entry[0], it.id, avoid=stores | not_mx) if entry else None
+    rep.ob(R, site, "an attribute keeps the default class only when it is not an MX", w is None,
+           "an iteration can end without classifying the attribute although `isinstance(%s, ca.MX)` has not been refuted: such an MX attribute is "
+           "blanked by to_dict() and never restored by load_model" % attr, path=cfg.describe(w) if w else "")
+
+
 # -- seeded variants ---------------------------------------------------------
 from ._mut import delete_stmt_where, replace_in_func  # noqa: E402
 
@@ -518,3 +548,15 @@ def _m_reuse_lib(mod):
         return False
 
     return mod if replace_in_func(mod, "_codegen_model", edit) else None
+
+
+@SPEC.mutant("constant MX attributes left unclassified", API, "R19.11", "only when it is not an MX")
+def _m_const_mx(mod):
+    def edit(fn):
+        for n in ast.walk(fn):
+            if isinstance(n, ast.If) and norm(n.test) == "isinstance(attr, ca.MX)":
+                n.test = ast.parse("isinstance(attr, ca.MX) and not attr.is_constant()", mode="eval").body
+                return True
+        return False
+
+    return mod if replace_in_func(mod, "save_model", edit) else None
